@@ -94,26 +94,26 @@ type nfaEdge struct {
 }
 
 type scanNFA struct {
-	edges   [][]nfaEdge
-	accept  map[int]bool // may-accept nodes (return true reachable consuming nothing more)
+	edges      [][]nfaEdge
+	accept     map[int]bool // may-accept nodes (return true reachable consuming nothing more)
 	acceptFull map[int]bool // accept nodes where remaining input may be empty
-	start   int
+	start      int
 }
 
 type scanFunc struct {
-	c        *Ctx
-	fi       *FuncInfo
-	info     *types.Info
-	g        *FCFG
-	cursor   types.Object
-	input    types.Object // original parameter (for input[n], len(input))
-	counter  types.Object // consumed counter (optional)
-	sizeVar  types.Object // size := len(cursor) alias (optional)
-	bounded  map[types.Object]int // counter -> cap
-	suffix   *bset // required last byte (suffix prologue)
-	caseSw   map[*ast.CaseClause]*ast.SwitchStmt
-	problems []string
-	undecided []string
+	c             *Ctx
+	fi            *FuncInfo
+	info          *types.Info
+	g             *FCFG
+	cursor        types.Object
+	input         types.Object         // original parameter (for input[n], len(input))
+	counter       types.Object         // consumed counter (optional)
+	sizeVar       types.Object         // size := len(cursor) alias (optional)
+	bounded       map[types.Object]int // counter -> cap
+	suffix        *bset                // required last byte (suffix prologue)
+	caseSw        map[*ast.CaseClause]*ast.SwitchStmt
+	problems      []string
+	undecided     []string
 	boolResultIdx int
 }
 
@@ -1198,9 +1198,9 @@ func included(a *scanNFA, accA map[int]bool, b *scanNFA, accB map[int]bool) (boo
 // ---------------------------------------------------------------- rule
 
 type scannerSpec struct {
-	key     string
-	regex   string
-	what    string
+	key       string
+	regex     string
+	what      string
 	usePrefix bool // check consumed prefixes at any accepting return (token scanners with trailing input)
 }
 
